@@ -48,6 +48,7 @@ structure ConcObs where
   q : Nat
   unstable : Bool
   bb : Bool := false   -- black-box observation (hook stub): go/q are States() samples, not usable for equalities
+  cstart : Nat := 0    -- tasks that began to run with the pool context already cancelled
   deriving Repr, Inhabited
 
 /-! ### hang classification (known findings C12-F1, C12-F2) -/
@@ -120,13 +121,39 @@ def c11Conc (o : ConcObs) : Option String :=
   else lifecycle (o.calls ++ o.tasks.map fun t => ⟨"S", t.sub == "ok", t.inv, t.res⟩)
 
 def c12Conc (o : ConcObs) (cls : HangClass) : Option String :=
-  if o.done == "closed" then
+  -- without a successful ShutdownNow the pool context is cancelled only by the graceful path, i.e. after
+  -- the last accepted task: no task may *start* with a cancelled context
+  if o.cstart > 0 && !(o.calls.any fun c => c.kind == "N" && c.ok) then
+    some s!"C12 {o.cstart} accepted task(s) started after the done channel was closed"
+  else if o.done == "closed" then
     if o.afterDone > 0 then some s!"C12 {o.afterDone} tasks began to run after the done channel was closed"
     else match findIdx? o.tasks (fun t => t.sub == "ok" && !(t.runs == 1 && t.marked == 0 && t.fin != 0 && t.fin < o.dseq)) with
       | some (i, t) => some s!"C12 done channel closed (seq {o.dseq}) while accepted task {i} had runs={t.runs} finished-at={t.fin}"
       | none => if !o.unstable && !o.bb && o.q != 0 then some s!"C12 done channel closed with {o.q} tasks queued" else none
   else if o.done == "hang" then
     (if cls = .other then some s!"C12 Shutdown never completed: unexplained hang st={o.st} totalGo={o.go} queue={o.q}" else none)
+  else none
+
+/-! ### directed scenarios (one line = many rounds; the harness reports maxima / counts over the rounds) -/
+
+/-- C11, burst of concurrent submitters onto a growable running pool: in no round more than maxGo tasks
+    executed at once, no `States().GoCnt` sample and no `totalGo` snapshot exceeded maxGo -/
+def burstLaw (maxGo : Nat) (maxPeak : Nat) (maxGoCnt maxTotal : Int) (badRep : Int) : Option String :=
+  if maxPeak > maxGo then some s!"C11 {maxPeak} tasks ran concurrently, maxGo={maxGo} (burst round {badRep})"
+  else if maxGoCnt > (maxGo : Int) then some s!"C11 States reported GoCnt={maxGoCnt}, maxGo={maxGo} (burst round {badRep})"
+  else if maxTotal > (maxGo : Int) then some s!"C11 totalGo={maxTotal}, maxGo={maxGo} (burst round {badRep})"
+  else none
+
+/-- C12, hand-off scenario: the done channel was never observed closed while an accepted task had not
+    finished (`early`), no accepted task started with the already cancelled pool context (`cstart`:
+    received but not yet started counts as unfinished), and Shutdown completed in every round -/
+def handoffLaw (early cstart hangs : Nat) (badRound : Int) (cls : HangClass) : Option String :=
+  if early > 0 then
+    some s!"C12 done channel closed while {early} accepted task(s) had not finished (hand-off round {badRound})"
+  else if cstart > 0 then
+    some s!"C12 {cstart} accepted task(s) started after the done channel was closed (hand-off round {badRound})"
+  else if hangs > 0 && cls = .other then
+    some s!"C12 Shutdown never completed: unexplained hang (hand-off round {badRound})"
   else none
 
 /-! ### sequential scenarios: a monitor over the calls of one control thread -/
